@@ -574,6 +574,7 @@ impl Uiua {
                         ));
                     }
                 };
+                env.respect_recursion_limit()?;
                 env.call(&func)
             }),
             Node::BindGlobal { span, index } => {
